@@ -177,7 +177,10 @@ func (f *FieldCopyFromGenerator) genPrimitive() *j.Statement {
 					j.Id("obj." + f.ParentIsOptionalEmbedFieldName).Op("=").Id("&" + f.ParentIsOptionalEmbedFullType + "{}"),
 				)
 				g.Id("obj." + f.Name).Op("=").Id("t")
-			})
+			}).Else().If(j.Id("obj." + f.ParentIsOptionalEmbedFieldName).Op("!=").Nil()).Block(
+				// A parent which is already there must not keep a stale value, t is zero here
+				j.Id("obj." + f.Name).Op("=").Id("t"),
+			)
 			return
 		}
 
